@@ -40,8 +40,9 @@ def run(rep, ctx):
     rep.run_rule("C18.R3", "FractionScalar agrees with Scalar: ordering, validation and value access", r3_siblings, ctx)
     rep.run_rule("C18.R4", "fraction parts are converted separately: sound only for units without offset", r4_parts, ctx)
     rep.run_rule("C18.R7", "CreateFromFloat: the sign given to the fraction part is the sign of the value itself", r7_sign, ctx)
+    rep.run_rule("C18.R8", "CreateFromFloat: a helper that cuts the digits out of str(float) at the '.' also looks for the exponent ('1e-05')", r8_exponent, ctx)
     rep.not_decided += [
-        "CreateFromFloat beyond its sign handling (continued fractions steered by str() of floats)",
+        "CreateFromFloat beyond its sign and exponent-notation handling (continued fractions steered by str() of floats)",
         "the format -> parse round trip through the verbose regular expression",
         "exactness of Fraction's normalisation loop (`while abs(a - round(a)) > SMALL`)",
     ]
@@ -115,6 +116,91 @@ def r7_sign(rep, ctx):
         rep.check(verdict, "C18.R7", "CreateFromFloat:numerator-sign:%s" % norm(ast.unparse(num))[:40], "the numerator carries the sign of the value itself",
                   "the numerator's sign is decided from %s, not from the value: for -1 < value < 0 the integer part is 0 and the sign is lost (CreateFromFloat(-0.375) denotes +0.375)" % why, node=node, fn=fn)
     rep.floor("C18.R7", "fraction-building returns of CreateFromFloat", n, 1)
+
+
+_LOCATORS = ("find", "rfind", "index", "rindex", "split", "rsplit", "partition", "rpartition")
+_TEXT_KEEPING = ("lower", "upper", "strip", "lstrip", "rstrip", "casefold")
+
+
+def _own(fnode):
+    """Nodes of a function definition without the bodies of nested definitions."""
+    todo = list(fnode.body)
+    while todo:
+        n = todo.pop()
+        yield n
+        for c in ast.iter_child_nodes(n):
+            if not isinstance(c, (ast.FunctionDef, ast.AsyncFunctionDef, ast.Lambda, ast.ClassDef)):
+                todo.append(c)
+
+
+def r8_exponent(rep, ctx):
+    """str() of a float switches to exponent notation below 1e-4 and from 1e16 on ('1e-05', '1.5e+16').  A function of
+    CreateFromFloat (the method body or one of its nested helpers) that takes str()/repr() of a number and then
+    *locates the decimal point* in that text (find/index/split/partition on '.') is cutting digits out of it; the cut
+    is only right when the same function also looks for the exponent marker in that text ('e' searched with
+    find/index/split/partition/`in`, on the text or on its lower()/upper()).  Necessary condition of 'CreateFromFloat
+    preserves the amount': without it every value whose fractional part prints with an exponent is read wrong
+    (CreateFromFloat(1e-05) denoted 1e-06 before the fix 4f1625f).  A text that is only compared as a whole
+    (str(a) == str(b)) carries no obligation.  Decides the presence of the exponent case per digit-cutting function,
+    not the arithmetic done with the digits."""
+    m = ctx.model
+    fn = m.method("FractionValue", "CreateFromFloat")
+    defs = [fn.node] + [n for n in ast.walk(fn.node) if isinstance(n, (ast.FunctionDef, ast.AsyncFunctionDef)) and n is not fn.node]
+    sites = 0
+    for d in defs:
+        nodes = list(_own(d))
+        texts = set()  # names holding (a slice / case variant of) the text of a number
+
+        def is_text(e):
+            if isinstance(e, ast.Call) and isinstance(e.func, ast.Name) and e.func.id in ("str", "repr") and len(e.args) == 1 and not e.keywords:
+                return True
+            if isinstance(e, ast.Name):
+                return e.id in texts
+            if isinstance(e, ast.Subscript):
+                return is_text(e.value)
+            if isinstance(e, ast.IfExp):
+                return is_text(e.body) or is_text(e.orelse)
+            if isinstance(e, ast.Call) and isinstance(e.func, ast.Attribute) and e.func.attr in _TEXT_KEEPING:
+                return is_text(e.func.value)
+            if isinstance(e, ast.NamedExpr):
+                return is_text(e.value)
+            return False
+
+        changed = True
+        while changed:
+            changed = False
+            for n in nodes:
+                tgt = val = None
+                if isinstance(n, ast.Assign) and len(n.targets) == 1 and isinstance(n.targets[0], ast.Name):
+                    tgt, val = n.targets[0].id, n.value
+                elif isinstance(n, ast.AnnAssign) and isinstance(n.target, ast.Name) and n.value is not None:
+                    tgt, val = n.target.id, n.value
+                elif isinstance(n, ast.NamedExpr) and isinstance(n.target, ast.Name):
+                    tgt, val = n.target.id, n.value
+                if tgt and tgt not in texts and is_text(val):
+                    texts.add(tgt)
+                    changed = True
+
+        def searched(const_ok):
+            out = []
+            for n in nodes:
+                if isinstance(n, ast.Call) and isinstance(n.func, ast.Attribute) and n.func.attr in _LOCATORS and n.args and isinstance(n.args[0], ast.Constant) and const_ok(n.args[0].value) and is_text(n.func.value):
+                    out.append(n)
+                if isinstance(n, ast.Compare) and len(n.ops) == 1 and isinstance(n.ops[0], (ast.In, ast.NotIn)) and isinstance(n.left, ast.Constant) and const_ok(n.left.value) and is_text(n.comparators[0]):
+                    out.append(n)
+            return out
+
+        dots = searched(lambda c: c == ".")
+        if not dots:
+            continue
+        sites += 1
+        exps = searched(lambda c: isinstance(c, str) and c.lower() == "e")
+        first = min(dots, key=lambda n: (n.lineno, n.col_offset))
+        rep.check(bool(exps), "C18.R8", "CreateFromFloat:%s:digits-of-str" % d.name,
+                  "%s locates the '.' in the text of a number and also looks for the exponent marker" % d.name,
+                  "%s cuts the text of a float at the '.' (`%s`) without looking for an exponent: for a value printed as '1e-05' the cut digits are wrong and CreateFromFloat changes the amount" % (d.name, norm(ast.unparse(first))[:60]),
+                  node=first, fn=fn)
+    rep.floor("C18.R8", "functions of CreateFromFloat cutting digits out of str(float)", sites, 1)
 
 
 def _single_return(fn):
